@@ -56,7 +56,9 @@ REAL = {
 COMPOUND = ("TablePalette",)
 ODD_IDS = ["red", "Cyan", "Blue.x", "G5", "g24", "g05", "white", "Magenta", "usr.a", "TEXT.sub",
            # ids spelled like accessors / attributes of the palettes (an id is an id)
-           "warn", "error", "ok", "keyword", "name", "text", "get_color", "colors_conf"]
+           "warn", "error", "ok", "keyword", "name", "text", "get_color", "colors_conf",
+           # ids that begin like a colour number / an rgb triple
+           "2XX", "3D.AXIS", "1ST", "0x1F"]
 GLOBAL_ACCESSORS = {"text": "TEXT", "name": "NAME", "keyword": "KEYWORD", "ok": "OK", "warn": "WARN", "error": "ERROR"}
 
 
